@@ -248,6 +248,7 @@ GraphStep ==
          ma2   == StepM(ma, nodesA, e, AsIs)
          obs   == ProjO(e)
          a0    == IF isadd THEN e.bd[1] ELSE IF e.op = "readd" THEN BStart(mi.blk[nodes[e.n]]) ELSE 0 - 1
+         hi0   == IF isadd THEN e.bd[Len(e.bd)] ELSE IF e.op = "readd" THEN BEnd(mi.blk[nodes[e.n]]) ELSE 0
          ins2  == IF isadd THEN ins \cup Instrs(e.bd) ELSE ins
          si    == IF e.op = "link" THEN 0 ELSE SplitIdx(pLay, a0)
          dom   == T.dom = 1
@@ -256,7 +257,7 @@ GraphStep ==
                    ELSE IF e.exc # "" THEN "Raised"
                    ELSE IF ~DisjointL(lay) THEN "Disjoint"
                    ELSE IF ~CoversL(lay, ins2) THEN "Covers"
-                   ELSE IF si # 0 /\ ~FallThroughO(pEd, ed, pLay[si][1], a0) THEN "FallThrough"
+                   ELSE IF si # 0 /\ ~FallThroughO(pEd, ed, pLay[si][1], a0, hi0) THEN "FallThrough"
                    ELSE ""
          asis   == obs = ProjM(ma2)
          \* only the Swallow deviations make the mapped layout differ from the intended design's
